@@ -303,6 +303,13 @@ func runC03(ctx *harness.Ctx) {
 			}
 		}
 	})
+	ctx.Rapid("clause-permutations", ctx.Pick(1500, 25000), func(t *rapid.T) {
+		src, _ := drawClausePermutation(t)
+		if len(src) > 4096 {
+			src = src[:4096]
+		}
+		c03All(ctx, t, "clause-permutations", src)
+	})
 	// (a) byte soups
 	ctx.Rapid("soup", ctx.Pick(3000, 40000), func(t *rapid.T) {
 		src := mutate.Soup(t, 24)
